@@ -78,27 +78,23 @@ class LT:
         value : int
             Lifetime in milliseconds.
         """
-        if value < 50:
+        if value < 1000000:
+            # Largest representable lifetime (multiplier 0..63 x base) not exceeding
+            # the requested value; equal candidates prefer the larger base.
             multiplier = 0
             base = LTbase.FIFTY_MILLISECONDS
-        elif value < 100:
-            multiplier = 1
-            base = LTbase.FIFTY_MILLISECONDS
-        elif value < 500:
-            multiplier = int(value / 50 % 64)
-            base = LTbase.FIFTY_MILLISECONDS
-        elif value < 1000:
-            multiplier = 0
-            base = LTbase.ONE_SECOND
-        elif value < 10000:
-            multiplier = int(value / 1000 % 64)
-            base = LTbase.ONE_SECOND
-        elif value < 100000:
-            multiplier = int(value / 10000 % 64)
-            base = LTbase.TEN_SECONDS
-        elif value < 1000000:
-            multiplier = int(value / 100000 % 64)
-            base = LTbase.ONE_HUNDRED_SECONDS
+            best = 0
+            for candidate_base, base_millis in (
+                (LTbase.FIFTY_MILLISECONDS, 50),
+                (LTbase.ONE_SECOND, 1000),
+                (LTbase.TEN_SECONDS, 10000),
+                (LTbase.ONE_HUNDRED_SECONDS, 100000),
+            ):
+                candidate_multiplier = min(63, int(value // base_millis))
+                if candidate_multiplier > 0 and candidate_multiplier * base_millis >= best:
+                    best = candidate_multiplier * base_millis
+                    multiplier = candidate_multiplier
+                    base = candidate_base
         else:
             multiplier = 0
             base = LTbase.ONE_HUNDRED_SECONDS
